@@ -31,3 +31,36 @@ def c15(run):
     run.assumptions += ["non-adjacent verification outcome is given by the row's trust predicate installed in the harness header type",
                         "forged = bad signature: fails hard when adjacent, soft otherwise"]
     judge(run, cases, "TestBifurcation", "BifurcationTrace", ["C15_"], shards=8, pkg="synch")
+
+
+@register("C16")
+def c16(run):
+    quick = run.tier == "quick"
+    known = sorted({f["model_tag"] for f in vlib.load_known() if f.get("status") == "open" and f.get("model_tag", "").startswith("KF-C16")})
+    res = vlib.tlc(run.pid, "table", "SyncerTail", "SyncerTail.cfg", export_key="C16", workers=8, timeout=3000,
+                   constants={"Known": "{%s}" % ", ".join('"%s"' % k for k in known)})
+    vlib.require_tlc_ok(res, "SyncerTail.tla")
+    run.add_tlc("SyncerTail.tla: tail arithmetic transcribed with Go semantics (division by zero, uint64 wrap); parameters x store x time pattern x new head", res)
+    cases = res.exported
+    for i, c in enumerate(cases):
+        c["id"] = i
+    design_bad = collections.Counter((c["predicted"]["kind"]) for c in cases if not c["allowed"])
+    run.cov["design_rows_outside_allowed"] = dict(design_bad)
+    run.cov["rows_total"] = len(cases)
+    run.cov["exhaustive"] = True
+    for c in cases[:1] + [c for c in cases if not c["allowed"]][:2]:
+        run.sample({"in": c["in"], "predicted": c["predicted"], "design_allowed": c["allowed"]})
+    run.cov["rule"] = ("every row (blockTime 0..3, window, trusting period, SyncFromHeight, time pattern regular/slow/halted/burst, empty or running store, "
+                       "new head) is one Start()+Head() of the real Syncer over a real Store with explicit header times (tick = 1 h virtual); observed: panic, "
+                       "wrap-around (requested heights), error, Tail/Head, gap-freeness, pruned heights; non-trivial = tail moved or failure; distinct = distinct row")
+    run.assumptions += ["SyncFromHash rows are not part of the table (hash lookups go through the same renewTail/moveTail path as SyncFromHeight)",
+                        "integer arithmetic of the model is bounded (TLC); the uint64/int64 extremes are represented by the wrap symbol"]
+
+    def sig(c, f):
+        i = c.get("in", {})
+        ts = c.get("times", [])
+        nh = i.get("nhead", 1)
+        faster = any(ts[k + 1] - ts[k] < i.get("bt", 0) for k in range(0, max(0, nh - 1)))
+        return {"bt0": i.get("bt") == 0, "empty_store": i.get("tail") == 0, "sfh": i.get("sfh", 0) > 0,
+                "blocks_faster_than_blockTime": faster, "new_head_beyond_local_head_plus_1": i.get("tail", 0) != 0 and nh > i.get("shead", 0) + 1}
+    judge(run, cases, "TestTail", "SyncerTailTrace", ["C16_"], shards=8, pkg="synch", sig_fn=sig)
